@@ -400,8 +400,18 @@ func c18One(c *run.Ctx, fl c18Flow, db, jwt bool, mk func() (*c18State, bool), r
 		viol("serialization-not-retryable", "call="+target.Method, "a serialization conflict was reported as invalid_grant: "+res.detail)
 	}
 	// (2) transaction discipline
-	if db && f1.kind != "crash" && !benign {
-		if why := txAutomaton(txEvents); why != "" {
+	if db && f1.kind != "crash" {
+		evs := txEvents
+		if benign {
+			// the tolerated not-found / inactive answer is not a failed write for the purpose of "no commit after a failed write"
+			evs = nil
+			for _, e := range txEvents {
+				if e != "write-fail" && e != "read-fail" {
+					evs = append(evs, e)
+				}
+			}
+		}
+		if why := txAutomaton(evs); why != "" {
 			viol("transaction-discipline", fmt.Sprintf("flow=%s: %s", fl.name, why), fmt.Sprintf("events %v", txEvents))
 		}
 	}
